@@ -668,6 +668,16 @@ def run_losses(ctx, model, scico):
         _check(ctx, "feval." + cls, dict(case, x=fs2b(G.il(x, cplx)), y=fs2b(G.il(y, cplx))), impl, mod, formula)
 
 
+def run_unit_factor(ctx, scico):
+    """`1 * L`, `L * 1.0`, `L / 1`, ... are independent copies: rescaling the product in place leaves L alone (5 loss classes x
+    6 ways of writing the unit factor; a history on the same objects)"""
+    for desc, fail in G.unit_factor_failures(scico, ctx.rng, reps=ctx.n(1, 4)):
+        ctx.case({"unit-factor": desc["class"], "form": desc["form"]}, ("unit-factor", desc["class"], desc["form"]))
+        ctx.count("unit-factor:" + desc["form"])
+        if fail is not None:
+            ctx.disagree("loss.unit_factor", desc, fail.get("what"), "independent copy", oracle=lambda _c, fail=fail: fail)
+
+
 def run_losses_block(ctx, model, scico):
     """the four losses on block arrays (default Identity forward operator, block weights): the value is the documented
     formula on the concatenation of the blocks"""
@@ -746,6 +756,12 @@ def run_trees(ctx, model, scico):
         if obj is TypeError:
             ctx.count("tree:construction rejected (TypeError)")
             continue
+        if info.alias:
+            # c*L / L/c changed (or returned) L: the tree no longer evaluates to the arithmetic combination of its parts
+            a_ = info.alias[0]
+            ctx.disagree("tree.alias", case, info.alias, "c*L and L/c return a new loss and leave L unchanged",
+                         oracle=lambda _c, a_=a_: ({"what": "L(x) changed after P = c*L (or L/c); P.set_scale(..)", **{k_: a_[k_] for k_ in a_}}
+                                                   if (a_["L(x) before"] is not None and a_["L(x) before"] != a_["L(x) after"]) or a_["same_object"] else None))
         x = G.arg_to_scico(case["x"], shape, cplx)
         impl = _impl(lambda: float(obj(x)))
         r = model.call("tree", cplx=cplx, leaves=case["leaves"], ops=case["ops"], t=case["t"], x=case["x"])
@@ -915,6 +931,7 @@ def correspond(ctx, model):
     run_proxavg(ctx, model, scico)
     run_losses(ctx, model, scico)
     run_losses_block(ctx, model, scico)
+    run_unit_factor(ctx, scico)
     run_trees(ctx, model, scico)
     run_metrics(ctx, model, scico)
 
